@@ -30,6 +30,14 @@ CHECKS["C20"] = dict(
     technique="TLA+ spec model-checked with TLC; every explored state replayed into the real geometry/trigger functions",
 )
 
+CHECKS["C13"] = dict(
+    category="model_checking",
+    text="spec/UpdateMask.tla (header / dirty / values machine with New, Set, DirtyReset, MarkFullyDirty, Write, Read) is model checked per object kind (TypeOK, WireForm, SizeIsLen, ReadWritten, GetAfterSet) exhaustively to depth 6 (quick) / 8 (thorough) over a representative accessor set; every (state, operation) pair of the explored graph is replayed on the real typed masks of all 7 kinds x 3 expansions (getters, dirty bits, SMSG_UPDATE_OBJECT frame, declared size, read-back through the opcode reader); all 2,456 generated setters (every index) and seeded random operation sequences are recorded from the real code and validated by TraceUpdateMask.tla against the published field table.",
+    design_ref="DESIGN.md section 5 C13, notes/C13.md",
+    note="Trusted: tools/gen_mask.py (markdown table / doc page parsing, name normalisation, Rust signature scan), the lane convention of harness/vh/src/mask.rs, Guid and definer conversions (C11), TLC + Json/IOUtils modules. Observations outside the property (getter unwrap after a half-present GUID, is_bit_dirty beyond owned blocks) are recorded in the evidence, not raised.",
+    technique="TLA+ spec + TLC; spec->impl replay of every transition; impl->spec trace validation of all generated accessors and random operation sequences",
+)
+
 NOT_YET = {}
 
 def main():
